@@ -177,6 +177,9 @@ class C17(Property):
           (2, W.choose("chunks", 7) * per),                 # exact multiple
           (3, W.choose("chunks", 7) * per + W.choose("rem", per)),
           (1, 0), (1, 1)])
+      if kind in ("list", "gen") and W.chance("long-audio", 1, 60):
+        # hundreds of chunks: whatever builds up per chunk in the player
+        ln = (150 + W.choose("longchunks", 300)) * per + W.choose("rem", per)
       spec = {"kind": kind, "len": ln, "chunk_size": cs, "channels": ch,
               "dfmt": dfmt, "use_global": bool(gchunk) and
               bool(W.choose("useg", 2)),
